@@ -141,13 +141,12 @@ instance (pkg key : Nat) : Decidable (Dom pkg key) := by unfold Dom; infer_insta
 /-- **const_values_exact (partial)**: every literal is evaluated and is exactly what the model of
     `extract.go fixConst` (`Bind.asBuilt`: binary rounding to max(bitlen num, bitlen den, 64) bits, then decimal
     rounding to as many significant digits) yields for the go/types value of the namesake; outside the class
-    `float-const-rounded` that IS the exact value, kind included; inside the class it is not -/
+    `float-const-rounded` that IS the exact value, kind included (inside the class it is not:
+    `float_rounded_all_diverge`) -/
 theorem const_values_exact_partial : ∀ fr ∈ files, ∀ e ∈ fr.1.entries, e.form = .lit →
     ∃ o ∈ fr.2.objs, o.name = e.key ∧ e.val = asBuilt o.val ∧ e.val ≠ .none ∧
-      (Dom fr.1.pkg e.key → e.val = o.val) ∧ (¬ Dom fr.1.pkg e.key → e.val ≠ o.val) := by
-  intro fr h e he hl
-  obtain ⟨o, ho, hn, h1, h2, h3, h4⟩ := valuesOk_sound (every_file_ok fr h).values e he hl
-  exact ⟨o, ho, hn, h1, h2, h3, fun hd => h4 (Classical.not_not.mp hd)⟩
+      (Dom fr.1.pkg e.key → e.val = o.val) :=
+  fun fr h => valuesOk_sound (every_file_ok fr h).values
 
 /-- integers, strings and binary fractions that fit the precision pass through `fixConst` unchanged; a third does not -/
 example : asBuilt (.int true 5) = .int true 5 ∧ asBuilt (.rat false 3 8) = .rat false 3 8 ∧
